@@ -390,6 +390,16 @@ def run_S45(chk):
             mv = [n for n in A.walk_local(f.node) if isinstance(n, ast.Assign) and A.text(n.targets[0]) == letter and isinstance(n.value, ast.Call)
                   and A.callee_attr(n.value) == "moveaxis"]
             if not mv:
+                # moved on the way out: `return Q.moveaxis(...), R.moveaxis(...)`
+                anyw = [c for c in A.calls(f.node) if A.callee_attr(c) == "moveaxis" and isinstance(c.func, ast.Attribute) and A.text(c.func.value) == letter
+                        and A.kwarg(c, "destination") is not None and A.text(A.kwarg(c, "destination")) == par]
+                if anyw:
+                    c = anyw[-1]
+                    ok = A.neg_const(A.kwarg(c, "source")) == src
+                    chk.verdict("S5", (f, c), c, True if ok else False,
+                                f"{name}(): the connecting leg of {letter} (created at position {src}) must be moved to `{par}`; found `{A.short(c, 60)}`")
+                    continue
+            if not mv:
                 # wrapper that forwards the position to the decomposition and masks where the leg then is
                 fw = [c for c in A.calls(f.node) if A.kwarg(c, par) is not None and A.text(A.kwarg(c, par)) == par]
                 am = [c for c in A.calls(f.node) if A.callee_attr(c) == "apply_mask" and A.kwarg(c, "axes") is not None and par in A.text(A.kwarg(c, "axes"))]
